@@ -103,7 +103,10 @@ func randNear(r *rand.Rand, corners []int64, lo, hi int64) int64 {
 			v = -v
 		}
 		if v < lo || v > hi {
-			return v % (hi/2 + 1)
+			v %= hi/2 + 1
+		}
+		if v < lo || v > hi {
+			return lo
 		}
 		return v
 	}
